@@ -173,6 +173,19 @@ class HubRun:
             raise Inconclusive("gate accept timeout")
         finally:
             lst.close()
+        if getattr(self, "plant_staging", False):
+            # what a server process with THIS pid left behind when it was killed in mid-Put (pids are recycled):
+            # a staging file under the very name this server will use, longer than anything it is about to stage
+            paths = sorted({op.path for c in self.clients for op in c.program if op.kind == "Put" and op.path})
+            for s in self.servers:
+                for pth in paths:
+                    full = os.path.join(self.root, pth + ".%d.copia-tmp" % s.proc.pid)
+                    try:
+                        os.makedirs(os.path.dirname(full), exist_ok=True)
+                        with open(full, "wb") as f:
+                            f.write(b"stale staging bytes of a killed server with the same pid|" * 20000)
+                    except OSError:
+                        pass
         for s in self.servers:
             self._await_req(s)
 
